@@ -278,8 +278,15 @@ def one_case(ctx, st, lc, P, text, kinds, kind, kw, pinfo, label, other=None):
     ctx.ev()
     d2 = mon_parse.describe_outcome(out2)
     if d1 != d2:
-        ctx.violation('nondeterministic-or-state-leak', dict(case, between=other[0] if other else None),
-                      'first %r, again %r' % (d1, d2))
+        # the default is "today": a run that crosses local midnight between the two calls legitimately sees another date
+        out3 = call(P.parse, P, text, kind, kw, pinfo)
+        out4 = call(P.parse, P, text, kind, kw, pinfo)
+        d3, d4 = mon_parse.describe_outcome(out3), mon_parse.describe_outcome(out4)
+        if 'default' not in kw and d3 == d4 == d2 and D.datetime.now().hour == 0 and D.datetime.now().minute < 10:
+            ctx.count('midnight_rollover_between_calls')
+        else:
+            ctx.violation('nondeterministic-or-state-leak', dict(case, between=other[0] if other else None),
+                          'first %r, again %r' % (d1, d2))
     oc = d1[0] if d1[0] == 'ok' else d1[1]
     ctx.count('outcome_' + oc)
     ctx.distinct('%s|%s|%s|%s' % (oc, ','.join(sorted(kinds)), kind, ','.join(label + sorted(k for k in kw if k in ('fuzzy', 'ignoretz')))))
